@@ -123,6 +123,18 @@ func c20Cfgs() []c20Cfg {
 	}
 }
 
+// openIteratorsSettle waits until no iterator handed out by the wrapper is open (or the timeout) and returns the count.
+func openIteratorsSettle(f *dsx.Faulty, max time.Duration) int64 {
+	deadline := time.Now().Add(max)
+	for {
+		n := f.OpenIterators()
+		if n == 0 || time.Now().After(deadline) {
+			return n
+		}
+		time.Sleep(2 * time.Millisecond)
+	}
+}
+
 // extraWorlds: long cycles and wide fan-out on hand-made models.
 func c20ExtraWorlds() []*ref.World {
 	user := ref.Restr{Type: "user"}
@@ -167,6 +179,11 @@ func c20ExtraWorlds() []*ref.World {
 		}
 		out = append(out, &ref.World{M: mt, Tuples: tt, U: uf}, &ref.World{M: mu, Tuples: tu, U: uf})
 	}
+	// tuple-to-userset over a tupleset with TWO parent types (one producer per parent type)
+	m2p := &ref.Model{Types: map[string]map[string]*ref.RelDef{"user": {}, "group": {"r1": rd(ref.This(), user)},
+		"doc": {"parent": rd(ref.This(), ref.Restr{Type: "doc"}, ref.Restr{Type: "group"}), "r1": rd(ref.This(), user), "r0": rd(ref.TTU("parent", "r1"))}}}
+	out = append(out, &ref.World{M: m2p, U: ref.Universe{"user": {"user:a"}, "group": {"group:1"}, "doc": {"doc:1", "doc:2"}}, Tuples: []ref.Tuple{
+		{Obj: "doc:1", Rel: "parent", User: "group:1"}, {Obj: "doc:1", Rel: "parent", User: "doc:2"}, {Obj: "group:1", Rel: "r1", User: "user:b"}, {Obj: "doc:2", Rel: "r1", User: "user:b"}}})
 	// TTU cycle
 	m3 := &ref.Model{Types: map[string]map[string]*ref.RelDef{"user": {}, "doc": {"parent": rd(ref.This(), ref.Restr{Type: "doc"}), "r0": rd(ref.Bin(ref.KUnion, ref.This(), ref.TTU("parent", "r0")), user)}}}
 	u3 := ref.Universe{"user": {"user:a"}, "doc": {}}
@@ -273,6 +290,13 @@ func C20(o *core.Options) int {
 						res.Viols = append(res.Viols, core.Violation{Signature: "request-does-not-return/" + q.Kind + "/" + cfg.Name, Desc: fmt.Sprintf("%s %s cancel@%d did not return within 20 s; model{%s} tuples{%s}\n%s", cfg.Name, q, k, m, e2.TuplesStr(w.Tuples), goroutineDump()), Case: c})
 						return
 					}
+					// every datastore iterator opened for the request must have been stopped (an iterator is a
+					// connection / cursor on a SQL backend)
+					if n := openIteratorsSettle(fds, 3*time.Second); n != 0 {
+						// the counter is exact (caches and shared iterators are off: nothing drains in the background)
+						res.Viols = append(res.Viols, core.Violation{Signature: "datastore-iterator-left-open-after-return/" + q.Kind + "/" + cfg.Name, Desc: fmt.Sprintf("%s %s cancel@%d: %d datastore iterator(s) opened for the request were never stopped (3 s after the call returned); model{%s} tuples{%s}", cfg.Name, q, k, n, m, e2.TuplesStr(w.Tuples)), Case: c})
+						return
+					}
 					d, ok := settle(base, 3*time.Second)
 					if ms := float64(d.Microseconds()) / 1000; ms > res.MaxSettle {
 						res.MaxSettle = ms
@@ -366,11 +390,12 @@ func c20Strategies(o *core.Options, r *core.Report) {
 	r.Set("forced_strategy_worlds", len(worlds))
 	r.Parallel(len(worlds), func(wi int) {
 		w := worlds[wi]
-		env, err := e2.NewEnv(w.M, server.WithRequestTimeout(0))
-		if err != nil {
+		fds := dsx.New(memory.New())
+		env := &e2.Env{S: e2.NewServer(fds, server.WithRequestTimeout(0)), DS: fds, M: w.M}
+		defer env.Close()
+		if err := env.NewStore(); err != nil {
 			return
 		}
-		defer env.Close()
 		for i := 0; i < len(w.Tuples); i += 50 {
 			j := i + 50
 			if j > len(w.Tuples) {
@@ -399,11 +424,40 @@ func c20Strategies(o *core.Options, r *core.Report) {
 							return nil, nil
 						}
 						eng.sp.Reset(a)
+						fds.Arm(dsx.Off, 0, nil)
 						done := make(chan struct{})
 						go func() { eng.check(env, ts, obj, rel, "user:a", nil); close(done) }()
 						r.Eval(1)
 						select {
 						case <-done:
+							// the same assignment with the request context cancelled at the k-th datastore operation,
+							// for every k: the call returns and every iterator it opened is stopped
+							nOps := fds.Ops()
+							if nOps > 40 {
+								nOps = 40
+							}
+							for k := 1; k <= nOps && !stuck; k++ {
+								eng.sp.Reset(a)
+								ctx, cancel := context.WithCancel(context.Background())
+								fds.Arm(dsx.CancelAt, k, cancel)
+								d2 := make(chan struct{})
+								go func() { eng.checkCtx(ctx, env, ts, obj, rel, "user:a", nil); close(d2) }()
+								r.Eval(1)
+								select {
+								case <-d2:
+								case <-time.After(20 * time.Second):
+									stuck = true
+									r.Violate("request-does-not-return/check/forced-strategy/cancelled", fmt.Sprintf("Check(%s#%s@user:a) on tuning %s, assignment %v, cancelled at datastore operation %d did not return within 20 s; model{%s}", obj, rel, cfg.Name, a, k, w.M), map[string]any{"world": w, "tuning": cfg.Name, "object": obj, "relation": rel, "cancel_at": k})
+								}
+								cancel()
+								fds.Arm(dsx.Off, 0, nil)
+								if n := openIteratorsSettle(fds, 3*time.Second); n != 0 && !stuck {
+									stuck = true // the counter cannot be trusted for later runs on this store
+									off, ch := eng.sp.Snapshot()
+									r.Violate("datastore-iterator-left-open-after-return/check/forced-strategy", fmt.Sprintf("Check(%s#%s@user:a) on tuning %s with strategy assignment %s, cancelled at datastore operation %d: %d datastore iterator(s) opened for the request were never stopped; model{%s} tuples{%s}",
+										obj, rel, cfg.Name, assignKeyPrintable(ch, off), k, n, w.M, e2.TuplesStr(w.Tuples)), map[string]any{"world": w, "tuning": cfg.Name, "object": obj, "relation": rel, "cancel_at": k})
+								}
+							}
 						case <-time.After(20 * time.Second):
 							stuck = true
 							off, ch := eng.sp.Snapshot()
